@@ -543,6 +543,53 @@ def run(ctx, replay_lines=None):
                     ctx.violation(sig, {"kind": "heap-activity", "lines": [lines[first[ti]], l], "expected_events": ref_ev, "observed_events": got[:600]},
                                   what="same bytes, error read after a collection and unrelated allocations: %s instead of %s (%s)" % (got[-120:], ref_ev[-120:], l[:120]))
 
+    # (E0b) digit separators: a numeric literal with `_` inserted at ANY position either is no longer a number (symbol / error) or reads as
+    #       exactly the value of the separator-free literal (bit for bit) -- reading data must not depend on how the digits are grouped
+    srng = ctx.rng.fork("sep")
+    sep_lits, seen_l = [], set()
+    for l in list(G.SEP_FIXED):
+        if l not in seen_l:
+            seen_l.add(l)
+            sep_lits.append(l)
+    while len(sep_lits) < (400 if quick else 6000):
+        l = G.sep_literal(srng)
+        if l not in seen_l and b"_" not in l:
+            seen_l.add(l)
+            sep_lits.append(l)
+    sep_lines, sep_meta = [], []
+    for l in sep_lits:
+        toks = [l] + G.sep_variants(l)
+        b = b" ".join(toks) + b"\n"
+        sep_lines.append("case %s c%d,E,D" % (b.hex(), len(b)))
+        sep_meta.append(toks)
+    sep_outs, sep_cr = run_harness(hx, sep_lines)
+    report_crashes(ctx, hx, sep_cr, "while parsing numeric literals with digit separators")
+    sep_stats = collections.Counter()
+    for l, toks, o in zip(sep_lines, sep_meta, sep_outs):
+        if o == "CRASH":
+            continue
+        evs = split_out(o)[0].split()
+        if len(evs) != len(toks):
+            sep_stats["misaligned"] += 1
+            continue
+        if not evs[0].startswith(("v:n", "v:i", "v:u")):
+            sep_stats["base-not-a-number"] += 1
+            continue
+        sep_stats["literals"] += 1
+        for tk, e in zip(toks[1:], evs[1:]):
+            if e.startswith(("v:n", "v:i", "v:u")):
+                sep_stats["variants-number"] += 1
+                if e != evs[0]:
+                    sig = "parse:digit-separator-changes-value"
+                    if sig not in reported:
+                        reported.add(sig)
+                        two = toks[0] + b" " + tk + b"\n"
+                        ctx.violation(sig, {"kind": "separator", "lines": ["case %s c%d,E,D" % (two.hex(), len(two))], "literal": toks[0].decode("latin-1"),
+                                            "with_separator": tk.decode("latin-1"), "value": evs[0], "value_with_separator": e},
+                                      what="literal %s reads as %s but %s reads as %s" % (toks[0].decode("latin-1"), evs[0], tk.decode("latin-1"), e))
+            else:
+                sep_stats["variants-not-number"] += 1
+
     # (E1) history independence of complete forms (scratch-buffer reuse)
     alone, hcrashes, hlines = history_oracle(hx, seqs)
     report_crashes(ctx, hx, hcrashes, "while parsing a single form")
@@ -800,7 +847,7 @@ def run(ctx, replay_lines=None):
                 "with clone points and interleaved status/where/state/has-more/produce/error/GC); a jdn case = one value term; non-trivial = distinct protocol line",
         "samples": [lines[0][:200], lines[len(lines) // 2][:200], rt_lines[-1][:200]],
         "texts": len(texts), "schedules_per_text": nsched, "parser_runs": len(lines),
-        "oracle_failures": len(fails), "heap_activity_error_texts": heap_texts, "heap_activity_runs_plain_build": heap_runs, "history_independence_forms_checked": hist_checked, "history_independence_error_forms": hist_errors, "sequence_texts": len(seqs), "correspondence_runs": model_lines, "correspondence_diffs": len(diffs),
+        "oracle_failures": len(fails), "digit_separator_family": dict(sep_stats), "heap_activity_error_texts": heap_texts, "heap_activity_runs_plain_build": heap_runs, "history_independence_forms_checked": hist_checked, "history_independence_error_forms": hist_errors, "sequence_texts": len(seqs), "correspondence_runs": model_lines, "correspondence_diffs": len(diffs),
         "jdn_terms": len(rt_lines), "jdn_results": dict(rt_stats), "jdn_printer_correspondence_diffs": len(pdiffs),
         "capacity_dumps_compared": sum(o.count(" cap:") for o in outs) if exe else 0,
         "physical_machine_runs": model_lines, "physical_machine_faults": len(phys_faults),
@@ -840,6 +887,9 @@ def replay(ctx, path):
     bad = False
     if r.get("kind") == "jdn-roundtrip":
         bad = any(not o.startswith("ok") for o in outs)
+    elif r.get("kind") == "separator":
+        ev = split_out(outs[0])[0].split() if outs else []
+        bad = len(ev) == 2 and ev[1].startswith(("v:n", "v:i", "v:u")) and ev[0] != ev[1]
     elif r.get("kind") == "heap-activity":
         hplain = ctx.build.harness("plain", "c11p", [os.path.join(VERIF, "harness/C11/pharness.c")])
         o2, c2 = run_harness(hplain, lines[1:])
